@@ -501,3 +501,68 @@ func VerifC07StartPass() {
 	vassert(!strings.Contains(msg, "panic") && !strings.Contains(msg, "unexpected input type") && seen == nil,
 		"a wrongly typed value is reported by the run-time check as an ordinary error and never reaches the concretely typed node behind the pass-through")
 }
+
+// fan-in of two any-typed nodes: only map values can be merged; anything else (a nil value included) makes the run
+// fail with an ordinary error — never a panic on the run loop
+func VerifC07FanInDyn() {
+	ctx := context.Background()
+	vcfg("fifo", 1)
+	vcfg("selectfirst", 1)
+	da, db := vchoose("dynA", 3), vchoose("dynB", 3) // 0 map, 1 nil, 2 string
+	val := func(d int, key string) any {
+		switch d {
+		case 0:
+			return map[string]any{key: 1}
+		case 2:
+			return "s"
+		}
+		return nil
+	}
+	var got any
+	g := NewGraph[any, any]()
+	_ = g.AddLambdaNode("a", InvokableLambda(func(ctx context.Context, in any) (any, error) { return val(da, "a"), nil }))
+	_ = g.AddLambdaNode("b", InvokableLambda(func(ctx context.Context, in any) (any, error) { return val(db, "b"), nil }))
+	_ = g.AddLambdaNode("c", InvokableLambda(func(ctx context.Context, in any) (any, error) { got = in; return 1, nil }))
+	_ = g.AddEdge(START, "a")
+	_ = g.AddEdge(START, "b")
+	_ = g.AddEdge("a", "c")
+	_ = g.AddEdge("b", "c")
+	_ = g.AddEdge("c", END)
+	var opts []GraphCompileOption
+	if vchoose("dag", 2) == 1 {
+		opts = append(opts, WithNodeTriggerMode(AllPredecessor))
+	}
+	r, err := g.Compile(ctx, opts...)
+	vassert(err == nil, "fan-in of any-typed nodes compiles")
+	var rerr error
+	if vchoose("stream", 2) == 1 {
+		sr, e := r.Stream(ctx, 0)
+		rerr = e
+		if e == nil {
+			for i := 0; i < 4; i++ {
+				if _, e := sr.Recv(); e != nil {
+					if e != io.EOF {
+						rerr = e
+					}
+					break
+				}
+			}
+			sr.Close()
+		}
+	} else {
+		_, rerr = r.Invoke(ctx, 0)
+	}
+	if da == 0 && db == 0 {
+		if rerr == nil {
+			m, _ := got.(map[string]any)
+			vassert(len(m) == 2, "two map values are merged by key")
+		} else {
+			// streams of any-typed chunks are not mergeable (the chunk type, not the dynamic value, decides): an
+			// ordinary error is what C07 asks for here; the disagreement with Invoke is C04's subject
+			vassert(!strings.Contains(rerr.Error(), "panic"), "unmergeable streams are reported with an ordinary error")
+		}
+		return
+	}
+	vassert(rerr != nil, "values that cannot be merged make the run fail")
+	vassert(!strings.Contains(rerr.Error(), "panic"), "with an ordinary error, not a recovered panic")
+}
